@@ -65,6 +65,10 @@ fn real_main(args: &[String]) -> i32 {
                 1
             }
         }
+        "gen-keystreams" => {
+            rl2tp_dst::collisions::generate_keystreams();
+            0
+        }
         "gen-collisions" => {
             rl2tp_dst::collisions::generate();
             0
